@@ -3,14 +3,15 @@
 package timeinterval
 
 // Contracts for govc (contract-based deductive verification). Comment-only file.
-// Package time is trusted: Hour/Minute/Day/Month/Weekday/Year are uninterpreted functions of the instant (in the
-// interval's location) with their documented ranges; leap years, month lengths and DST live inside them.
+// Package time is trusted: Hour/Minute/Day/Month/Weekday/Year are uninterpreted functions of the instant AND the
+// location the time value carries (t.UTC(), t.In(loc), a parameter's own location zone(t)), with their documented
+// ranges; leap years, month lengths and DST live inside them. at(t, z) is the instant t seen in location z.
 
-// number of days of the month t falls in: computed through time.Date; assumed to be the calendar's month length
-//@ uf daysIn(time.Time) int
+// number of days of the month t falls in (in t's location): computed through time.Date; assumed to be the calendar's month length
+//@ uf daysIn(*time.Location, time.Time) int
 //@ func daysInMonth
 //@   trusted
-//@   ensures result == daysIn(t) && 28 <= result && result <= 31 && t.Day() <= result
+//@   ensures result == daysIn(zone(t), t) && 28 <= result && result <= 31 && at(t, zone(t)).Day() <= result
 //@   assigns nothing
 
 //@ func clamp
@@ -19,39 +20,44 @@ package timeinterval
 //@   ensures result == (n <= min ? min : (n >= max ? max : n))
 
 // ---- C15: the calendar predicate, transcribed from the property statement (an empty field matches everything).
-//@ spec minuteOfDay(t time.Time) int = t.Hour() * 60 + t.Minute()
+// z is the location the instant is looked at in: the interval's location, UTC by default (zoneFor).
+//@ spec zoneFor(tp TimeInterval, z *time.Location) *time.Location = tp.Location != nil ? tp.Location.Location : z
+//@ spec minuteOfDay(z *time.Location, t time.Time) int = at(t, z).Hour() * 60 + at(t, z).Minute()
 //@ spec fromEnd(x int, dim int) int = x < 0 ? dim + x + 1 : x
-//@ spec timesOK(tp TimeInterval, t time.Time) bool = len(tp.Times) == 0 ||
-//@     (exists i int :: 0 <= i && i < len(tp.Times) && tp.Times[i].StartMinute <= minuteOfDay(t) && minuteOfDay(t) < tp.Times[i].EndMinute)
-//@ spec daysOK(tp TimeInterval, t time.Time) bool = len(tp.DaysOfMonth) == 0 ||
-//@     (exists i int :: 0 <= i && i < len(tp.DaysOfMonth) && fromEnd(tp.DaysOfMonth[i].Begin, daysIn(t)) <= t.Day() && t.Day() <= fromEnd(tp.DaysOfMonth[i].End, daysIn(t)))
-//@ spec monthsOK(tp TimeInterval, t time.Time) bool = len(tp.Months) == 0 ||
-//@     (exists i int :: 0 <= i && i < len(tp.Months) && tp.Months[i].Begin <= t.Month() && t.Month() <= tp.Months[i].End)
-//@ spec weekdaysOK(tp TimeInterval, t time.Time) bool = len(tp.Weekdays) == 0 ||
-//@     (exists i int :: 0 <= i && i < len(tp.Weekdays) && tp.Weekdays[i].Begin <= t.Weekday() && t.Weekday() <= tp.Weekdays[i].End)
-//@ spec yearsOK(tp TimeInterval, t time.Time) bool = len(tp.Years) == 0 ||
-//@     (exists i int :: 0 <= i && i < len(tp.Years) && tp.Years[i].Begin <= t.Year() && t.Year() <= tp.Years[i].End)
+//@ spec timesOK(tp TimeInterval, z *time.Location, t time.Time) bool = len(tp.Times) == 0 ||
+//@     (exists i int :: 0 <= i && i < len(tp.Times) && tp.Times[i].StartMinute <= minuteOfDay(z, t) && minuteOfDay(z, t) < tp.Times[i].EndMinute)
+//@ spec daysOK(tp TimeInterval, z *time.Location, t time.Time) bool = len(tp.DaysOfMonth) == 0 ||
+//@     (exists i int :: 0 <= i && i < len(tp.DaysOfMonth) && fromEnd(tp.DaysOfMonth[i].Begin, daysIn(z, t)) <= at(t, z).Day() && at(t, z).Day() <= fromEnd(tp.DaysOfMonth[i].End, daysIn(z, t)))
+//@ spec monthsOK(tp TimeInterval, z *time.Location, t time.Time) bool = len(tp.Months) == 0 ||
+//@     (exists i int :: 0 <= i && i < len(tp.Months) && tp.Months[i].Begin <= at(t, z).Month() && at(t, z).Month() <= tp.Months[i].End)
+//@ spec weekdaysOK(tp TimeInterval, z *time.Location, t time.Time) bool = len(tp.Weekdays) == 0 ||
+//@     (exists i int :: 0 <= i && i < len(tp.Weekdays) && tp.Weekdays[i].Begin <= at(t, z).Weekday() && at(t, z).Weekday() <= tp.Weekdays[i].End)
+//@ spec yearsOK(tp TimeInterval, z *time.Location, t time.Time) bool = len(tp.Years) == 0 ||
+//@     (exists i int :: 0 <= i && i < len(tp.Years) && tp.Years[i].Begin <= at(t, z).Year() && at(t, z).Year() <= tp.Years[i].End)
 // validated day-of-month ranges: non-zero, within +-31
 //@ spec domValid(tp TimeInterval) bool = forall i int :: 0 <= i && i < len(tp.DaysOfMonth) ==>
 //@     (0 - 31 <= tp.DaysOfMonth[i].Begin && tp.DaysOfMonth[i].Begin <= 31 && 0 - 31 <= tp.DaysOfMonth[i].End && tp.DaysOfMonth[i].End <= 31)
 
+// The instant is looked at in the interval's location when it has one, otherwise in the location the caller's
+// value carries (Intervener.Mutes hands over a UTC value: "UTC by default").
 //@ func (TimeInterval).ContainsTime
 //@   props C15
 //@   requires domValid(tp) && (tp.Location != nil ==> tp.Location.Location != nil)
-//@   ensures [calendar] result == (timesOK(tp, t) && daysOK(tp, t) && monthsOK(tp, t) && weekdaysOK(tp, t) && yearsOK(tp, t))
-//@   loop 1 invariant rangeindex < len(tp.Times) && (forall k int :: 0 <= k && k <= rangeindex ==> !(tp.Times[k].StartMinute <= minuteOfDay(t) && minuteOfDay(t) < tp.Times[k].EndMinute))
-//@   loop 2 invariant rangeindex < len(tp.DaysOfMonth) && (forall k int :: 0 <= k && k <= rangeindex ==> !(fromEnd(tp.DaysOfMonth[k].Begin, daysIn(t)) <= t.Day() && t.Day() <= fromEnd(tp.DaysOfMonth[k].End, daysIn(t))))
-//@   loop 3 invariant rangeindex < len(tp.Months) && (forall k int :: 0 <= k && k <= rangeindex ==> !(tp.Months[k].Begin <= t.Month() && t.Month() <= tp.Months[k].End))
-//@   loop 4 invariant rangeindex < len(tp.Weekdays) && (forall k int :: 0 <= k && k <= rangeindex ==> !(tp.Weekdays[k].Begin <= t.Weekday() && t.Weekday() <= tp.Weekdays[k].End))
-//@   loop 5 invariant rangeindex < len(tp.Years) && (forall k int :: 0 <= k && k <= rangeindex ==> !(tp.Years[k].Begin <= t.Year() && t.Year() <= tp.Years[k].End))
+//@   ensures [calendar] result == calOK(tp, zoneFor(tp, zone(t)), t)
+//@   loop 1 invariant rangeindex < len(tp.Times) && (forall k int :: 0 <= k && k <= rangeindex ==> !(tp.Times[k].StartMinute <= minuteOfDay(zoneFor(tp, zone(t)), t) && minuteOfDay(zoneFor(tp, zone(t)), t) < tp.Times[k].EndMinute))
+//@   loop 2 invariant rangeindex < len(tp.DaysOfMonth) && (forall k int :: 0 <= k && k <= rangeindex ==> !(fromEnd(tp.DaysOfMonth[k].Begin, daysIn(zoneFor(tp, zone(t)), t)) <= at(t, zoneFor(tp, zone(t))).Day() && at(t, zoneFor(tp, zone(t))).Day() <= fromEnd(tp.DaysOfMonth[k].End, daysIn(zoneFor(tp, zone(t)), t))))
+//@   loop 3 invariant rangeindex < len(tp.Months) && (forall k int :: 0 <= k && k <= rangeindex ==> !(tp.Months[k].Begin <= at(t, zoneFor(tp, zone(t))).Month() && at(t, zoneFor(tp, zone(t))).Month() <= tp.Months[k].End))
+//@   loop 4 invariant rangeindex < len(tp.Weekdays) && (forall k int :: 0 <= k && k <= rangeindex ==> !(tp.Weekdays[k].Begin <= at(t, zoneFor(tp, zone(t))).Weekday() && at(t, zoneFor(tp, zone(t))).Weekday() <= tp.Weekdays[k].End))
+//@   loop 5 invariant rangeindex < len(tp.Years) && (forall k int :: 0 <= k && k <= rangeindex ==> !(tp.Years[k].Begin <= at(t, zoneFor(tp, zone(t))).Year() && at(t, zoneFor(tp, zone(t))).Year() <= tp.Years[k].End))
 //@   assigns nothing
 
-//@ spec calOK(tp TimeInterval, t time.Time) bool = timesOK(tp, t) && daysOK(tp, t) && monthsOK(tp, t) && weekdaysOK(tp, t) && yearsOK(tp, t)
+//@ spec calOK(tp TimeInterval, z *time.Location, t time.Time) bool = timesOK(tp, z, t) && daysOK(tp, z, t) && monthsOK(tp, z, t) && weekdaysOK(tp, z, t) && yearsOK(tp, z, t)
 //@ spec tiValid(tp TimeInterval) bool = domValid(tp) && (tp.Location != nil ==> tp.Location.Location != nil)
-//@ spec anyContains(iv []TimeInterval, t time.Time) bool = exists j int :: 0 <= j && j < len(iv) && calOK(iv[j], t)
+// some sub-interval contains the instant, each looked at in its own location, UTC when it has none
+//@ spec anyContains(iv []TimeInterval, t time.Time) bool = exists j int :: 0 <= j && j < len(iv) && calOK(iv[j], zoneFor(iv[j], utc()), t)
 
-// C15: a list of interval names mutes at an instant iff some sub-interval of some named interval contains it;
-// an unknown name is an error; the names reported are names from the list.
+// C15: a list of interval names mutes at an instant iff some sub-interval of some named interval contains it
+// (in the sub-interval's location, UTC by default); an unknown name is an error; the names reported are names from the list.
 //@ func (*Intervener).Mutes
 //@   props C15
 //@   requires i != nil
@@ -66,7 +72,7 @@ package timeinterval
 //@   loop 2 invariant rangeindex < len(interval) && (in == nil || fresh(in)) && rangeindex1 + 1 < len(names) && interval == i.intervals[names[rangeindex1 + 1]] && names[rangeindex1 + 1] in i.intervals
 //@   loop 2 invariant forall k int :: 0 <= k && k <= rangeindex1 ==> names[k] in i.intervals
 //@   loop 2 invariant (len(in) > 0) == ((exists k int :: 0 <= k && k <= rangeindex1 && anyContains(i.intervals[names[k]], now))
-//@                                      || (exists j int :: 0 <= j && j <= rangeindex && calOK(interval[j], now)))
+//@                                      || (exists j int :: 0 <= j && j <= rangeindex && calOK(interval[j], zoneFor(interval[j], utc()), now)))
 //@   assigns nothing
 
 // ---- C15: what the range validators guarantee when they accept (the parsed text itself is string-level and
